@@ -313,6 +313,22 @@ func scpTraceElem(v ssa.Value, depth int) []*scpElemAccess {
 			out = append(out, scpTraceElem(e, depth+1)...)
 		}
 		return out
+	case *ssa.Alloc:
+		// the copy of an element: `for _, b := range rs.Blocks` / `b := rs.Blocks[i]`
+		if !isElem(x.Type()) {
+			return nil
+		}
+		var out []*scpElemAccess
+		for _, r := range *x.Referrers() {
+			if st, ok := r.(*ssa.Store); ok && st.Addr == ssa.Value(x) {
+				accs := scpTraceElem(st.Val, depth+1)
+				if len(accs) == 0 {
+					return nil // some store puts a value of unknown provenance into the cell
+				}
+				out = append(out, accs...)
+			}
+		}
+		return out
 	}
 	return nil
 }
@@ -601,6 +617,32 @@ func scpCheckChain(c *Ctx, m *scopeModel, fn *ssa.Function, k scopeKind) string 
 		}
 		fresh, copied := false, false
 		for _, r := range *x.Referrers() {
+			// copy(chain[1:], parent.<field>): parent element i lands at i+1
+			if sl, ok := r.(*ssa.Slice); ok && sl.X == ssa.Value(x) {
+				for _, rr := range *sl.Referrers() {
+					call, ok := rr.(*ssa.Call)
+					if !ok {
+						continue
+					}
+					bi, ok := call.Call.Value.(*ssa.Builtin)
+					if !ok || bi.Name() != "copy" || len(call.Call.Args) != 2 || call.Call.Args[0] != ssa.Value(sl) {
+						continue
+					}
+					src, kk, isChain := scpSliceLoad(call.Call.Args[1])
+					if !isChain || kk != k || src != ssa.Value(recv) {
+						return fmt.Sprintf("the copy at %s fills the chain from something other than the parent's whole chain", c.Pos(call))
+					}
+					low, lowOK := int64(0), sl.Low == nil
+					if sl.Low != nil {
+						low, lowOK = core.ConstInt(sl.Low)
+					}
+					if !lowOK || low != 1 || sl.High != nil || sl.Max != nil {
+						return fmt.Sprintf("the parent chain is copied to chain[%d:] (%s), not to chain[1:]: parent element i must land at position i+1, behind the fresh scope", low, c.Pos(call))
+					}
+					copied = true
+				}
+				continue
+			}
 			ia, ok := r.(*ssa.IndexAddr)
 			if !ok {
 				continue
